@@ -111,6 +111,8 @@ pub struct Outcome {
     pub failed_writes: Vec<(Key, Op)>,
     /// commits that returned an error: (number of successful commits before it, error text, its writes in issue order)
     pub failed_commits: Vec<(usize, String, Vec<(Key, Op)>)>,
+    /// value of the harness clock when the run ended
+    pub final_clock: u64,
 }
 
 #[derive(Clone, Debug)]
@@ -1681,7 +1683,7 @@ pub async fn run_case(case: &Case, dir: &Path, opts: &ExecOpts) -> Outcome {
             tokio::task::yield_now().await;
         }
     }
-    Outcome { stats: ex.stats, failure, answers: ex.answers, model: ex.model, flushed_commits: ex.flushed_commits, failed_writes: ex.failed_writes, failed_commits: ex.failed_commits }
+    Outcome { stats: ex.stats, failure, answers: ex.answers, model: ex.model, flushed_commits: ex.flushed_commits, failed_writes: ex.failed_writes, failed_commits: ex.failed_commits, final_clock: ex.clock.peek() }
 }
 
 async fn run_inner(ex: &mut Exec<'_>) -> R<()> {
